@@ -156,6 +156,14 @@ pub enum TokFault {
     TextInsert { at: usize, ch: char },
     /// text-level: replace a character
     TextReplace { at: usize, ch: char },
+    /// Ed25519 tokens: add `k` times the group order L to the scalar half S of the signature (another
+    /// byte string for the same residue; RFC 8032 demands S < L). P-384 (v3): add the group order n to
+    /// the half that still fits in 48 bytes afterwards, if any.
+    SigAddOrder { k: u8 },
+    /// text-level: overwrite as many characters from `at` on as the UTF-8 encoding of `ch` has bytes
+    /// (ASCII texts: the byte length of the text stays the same, a multi-byte character then
+    /// straddles the byte offsets at .. at+len)
+    TextOverwriteBytes { at: usize, ch: char },
     /// text-level: replace the character `back` positions from the end (1 = last)
     TextReplaceBack { back: usize, ch: char },
     /// text-level: remove `n` characters starting at `at`
@@ -198,6 +206,38 @@ pub fn apply_tok_fault(d: &mut Delivered, f: &TokFault) -> bool {
                     p.payload[*byte] ^= 1 << (bit & 7);
                     d.text = p.render();
                     changed = true;
+                }
+            }
+        }
+        TokFault::SigAddOrder { k } => {
+            if let Some(mut p) = parts {
+                use num_bigint_dig::BigUint;
+                let fam = p.header.as_bytes().get(1).copied().unwrap_or(0);
+                if p.header.ends_with(".public.") && matches!(fam, b'2' | b'4') && p.payload.len() >= 64 && *k >= 1 {
+                    let l = BigUint::parse_bytes(b"1000000000000000000000000000000014def9dea2f79cd65812631a5cf5d3ed", 16).unwrap();
+                    let at = p.payload.len() - 32;
+                    let s = BigUint::from_bytes_le(&p.payload[at..]) + l * BigUint::from(*k);
+                    let mut le = s.to_bytes_le();
+                    if le.len() <= 32 {
+                        le.resize(32, 0);
+                        p.payload[at..].copy_from_slice(&le);
+                        d.text = p.render();
+                        changed = true;
+                    }
+                } else if p.header.ends_with(".public.") && fam == b'3' && p.payload.len() >= 96 {
+                    let n = crate::curves::p384_n();
+                    for off in [p.payload.len() - 48, p.payload.len() - 96] {
+                        let v = BigUint::from_bytes_be(&p.payload[off..off + 48]) + &n * BigUint::from(*k);
+                        let be = v.to_bytes_be();
+                        if be.len() <= 48 {
+                            let mut padded = vec![0u8; 48 - be.len()];
+                            padded.extend(be);
+                            p.payload[off..off + 48].copy_from_slice(&padded);
+                            d.text = p.render();
+                            changed = true;
+                            break;
+                        }
+                    }
                 }
             }
         }
@@ -461,6 +501,17 @@ pub fn apply_tok_fault(d: &mut Delivered, f: &TokFault) -> bool {
                 }
             }
         }
+        TokFault::TextOverwriteBytes { at, ch } => {
+            let chars: Vec<char> = d.text.chars().collect();
+            let n = ch.len_utf8();
+            if *at + n <= chars.len() && chars[*at..*at + n].iter().all(|c| c.is_ascii()) {
+                let mut c2: Vec<char> = chars[..*at].to_vec();
+                c2.push(*ch);
+                c2.extend_from_slice(&chars[*at + n..]);
+                d.text = c2.into_iter().collect();
+                changed = true;
+            }
+        }
         TokFault::TextReplaceBack { back, ch } => {
             let chars: Vec<char> = d.text.chars().collect();
             if *back >= 1 && *back <= chars.len() {
@@ -556,7 +607,9 @@ impl TokFault {
             TokFault::TextStdAlphabet => "text-std-alphabet",
             TokFault::TextTrailingBits { .. } => "text-trailing-bits",
             TokFault::TextInsert { .. } => "text-insert",
+            TokFault::SigAddOrder { .. } => "sig-add-order",
             TokFault::TextReplace { .. } => "text-replace",
+            TokFault::TextOverwriteBytes { .. } => "text-overwrite-bytes",
             TokFault::TextReplaceBack { .. } => "text-replace-tail",
             TokFault::TextDropBack { .. } => "text-drop-tail",
             TokFault::TextRemoveRange { .. } => "text-remove-range",
